@@ -42,6 +42,8 @@ C12ExecsS == {VX, VXsub, VZ}
 \* ---- C13 ----
 C13Conds == {[proc |-> p, gmp |-> n] : p \in {"long", "fresh"}, n \in {1, 2, 16}}
 C13Acts == {"gc", "query", "side", "checktx"}
+C13CondsS == {[proc |-> "long", gmp |-> 1], [proc |-> "fresh", gmp |-> 16]}
+C13ActsS == {"side"}
 NoConds == {}
 NoActs == {}
 =============================================================================
